@@ -169,9 +169,9 @@ class Sched:
     def park(self, op):
         ct = self.cur()
         ct.pending = op
-        if op[0] == "lock" and ct.pool is not None and ct.next_task is not None and ct.phase == "pre" \
-                and ct.pre_locks == 0 and op[1].role in ("cb", "cbin"):
-            # a pool thread reaches its first callback lock: it is starting its next tensor
+        if op[0] == "lock" and ct.pool is not None and ct.next_task is not None and op[1].role == "tensor":
+            # a pool thread reaches a tensor lock (the outermost lock of `_write_tensor`): it is starting its next
+            # tensor
             if ct.task is not None:
                 self.task_done[ct.task] = "doneOk"
             ct.task = ct.next_task
@@ -239,9 +239,9 @@ def _owned_pool(sched):
 class SLock:
     """Shim lock.  Its role is not taken from the source text of /repo:
     * "tensor": the lock objects found (by identity) in the dict returned by `_create_tensor_write_locks`;
-    * "cbin" / "cb": a lock a pool thread takes *before* the callback of its current tensor has run — the first
-      one is the inner writer's own callback lock when the configuration's pool has one, the next one the lock
-      that guards the callback;
+    * "cbin" / "cb": a lock a pool thread takes (under the tensor lock) *before* the callback of its current
+      tensor has run — the first one is the inner writer's own callback lock when the configuration's pool has
+      one, the next one the lock that guards the callback;
     * "aux": anything else (the `files` list lock): never held across a park point, so it is taken without
       parking; should it ever be found held, the acquire parks and shows up as a model / code difference."""
 
